@@ -216,7 +216,7 @@ static void extra_event(int which, int p) {
     if (which == 0) { for (int i = 0; i < n; i++) D[i][1] = 0; c.driver = DRV_GSSV; tm_from_dense(&T, n, n, pat, D); run_factor_case(&T, &c, r); }              /* explicit zero column: singular */
     else if (which == 1) { c.driver = DRV_GSSVX; c.lwork = 64; tm_from_dense(&T, n, n, pat, D); run_factor_case(&T, &c, r); }                                   /* user workspace far too small: info > n */
     else if (which == 2) { tm_from_dense(&T, n, n, pat, D); c.driver = DRV_GSSVX; c.fact = EQUILIBRATE; c.trans = TRANS; c.nprocs = 2; run_factor_case(&T, &c, r); }  /* expert driver, other options */
-    else if (which == 3) { n = 3; for (int i = 0; i < 3; i++) for (int j = 0; j < 3; j++) { pat[i][j] = 1; D[i][j] = generic_value(i, j, 5); } tm_from_dense(&T, 3, 3, pat, D); c.w = 4; c.relax = 3; c.maxsuper = 3; run_factor_case(&T, &c, r); }   /* another size */
+    else if (which == 3) { n = 3; for (int i = 0; i < 3; i++) for (int j = 0; j < 3; j++) { pat[i][j] = 1; D[i][j] = generic_value(i, j, 5); } tm_from_dense(&T, 3, 3, pat, D); c.w = 4; c.relax = 3; c.maxsuper = 4; run_factor_case(&T, &c, r); }   /* another size (sp_ienv(3) stays what the probe uses: one tuning per process, as with a fixed sp_ienv) */
     free(r);
 }
 
